@@ -241,6 +241,11 @@ func (m *ProtoProducerMessage) FormatMessageReflectCustom(ext, quotes, sep, sign
 		}
 
 		isSlice := m.formatter.IsArray(fieldName)
+		if fieldValue.IsValid() {
+			// the value decides how it is walked: a custom field declared under the name of a column (or declared
+			// twice) must not make a scalar be indexed (reflect panics) or a list be printed as one Go value
+			isSlice = fieldValue.Kind() == reflect.Slice && fieldValue.Type().Elem().Kind() != reflect.Uint8
+		}
 
 		// render each item of the array independently
 		// note: isSlice is necessary to consider certain byte arrays in their entirety
